@@ -300,6 +300,7 @@ func (e *Enc) eval1(env *Env, x CExpr, cur, old *State) Val {
 		if t == nil {
 			e.evalFail(env, "unknown type %q", n.Typ)
 		}
+		t = e.instantiateLikeReceiver(t, env)
 		name := "q_" + n.Var
 		saved, had := env.vars[n.Var]
 		env.vars[n.Var] = Val{T: name, Typ: t}
@@ -659,6 +660,9 @@ func (e *Enc) evalCall(env *Env, n CCall, cur, old *State) Val {
 		return Val{T: "(str.suffixof " + arg(1).T + " " + arg(0).T + ")", Typ: tBool}
 	case "indexOf":
 		return Val{T: "(str.indexof " + arg(0).T + " " + arg(1).T + " 0)", Typ: tInt}
+	case "chr":
+		// chr(b): the one-character string with code b
+		return Val{T: "(str.from_code " + arg(0).T + ")", Typ: tString}
 	case "substr":
 		return Val{T: "(str.substr " + arg(0).T + " " + arg(1).T + " " + arg(2).T + ")", Typ: tString}
 	case "replaceAll":
@@ -860,4 +864,39 @@ func (e *Enc) axiomState() *State {
 		e.axSt = e.BaseState("ax")
 	}
 	return e.axSt
+}
+
+// instantiateLikeReceiver: inside (an instantiation of) a method of a generic type, the bare name of
+// that generic type in a contract means the receiver's instantiation (Tree -> Tree[rule.Route]).
+func (e *Enc) instantiateLikeReceiver(t types.Type, env *Env) types.Type {
+	if env.fr == nil || env.fr.top == nil {
+		return t
+	}
+	fn := env.fr.top.fn
+	if fn.Signature.Recv() == nil {
+		return t
+	}
+	rt := fn.Signature.Recv().Type()
+	if p, ok := rt.(*types.Pointer); ok {
+		rt = p.Elem()
+	}
+	rn, ok := rt.(*types.Named)
+	if !ok || rn.TypeArgs().Len() == 0 {
+		return t
+	}
+	var subst func(x types.Type) types.Type
+	subst = func(x types.Type) types.Type {
+		switch y := x.(type) {
+		case *types.Pointer:
+			return types.NewPointer(subst(y.Elem()))
+		case *types.Slice:
+			return types.NewSlice(subst(y.Elem()))
+		case *types.Named:
+			if y.TypeParams().Len() > 0 && y.TypeArgs().Len() == 0 && y.Origin() == rn.Origin() {
+				return rn
+			}
+		}
+		return x
+	}
+	return subst(t)
 }
